@@ -194,7 +194,28 @@ inductive Op where
   | pop (x : Nat) (k : Key)                  -- `pop(x, k)` (= `x.pop(k)`); returns (rest, value)
   | pickle (x : Nat)                         -- `__reduce__`: `FrozenDict(x.unfreeze())`
   | treeMap (x : Nat)                        -- `jax.tree_util.tree_map(lambda y: y, x)` (flatten ∘ unflatten)
+  | unflatten (ks : List (Key × Nat))        -- `tree_unflatten(<FrozenDict treedef with these keys>, [roots[i], …])`
+                                             --  (also what `tree_map(f, fd)` does with the values `f` returns)
   deriving DecidableEq, Repr
+
+/-- the held values named by an `unflatten` op -/
+def resolveKs (rs : List Val) : List (Key × Nat) → Option (List (Key × Val))
+  | [] => some []
+  | (k, i) :: r =>
+    match rs[i]?, resolveKs rs r with
+    | some v, some kvs => some ((k, v) :: kvs)
+    | _, _ => none
+
+/-- children that `tree_unflatten` may be given within the modelled domain: leaves and FrozenDict
+objects.  (A *mutable dict* passed as a child would be stored by reference — `__unsafe_skip_copy__` —
+which is the documented contract of the pytree protocol and outside the no-alias claim, DESIGN §7.) -/
+def childOk (h : Heap) (v : Val) : Bool :=
+  match v with
+  | .leaf _ => true
+  | .ref a =>
+    match h[a]? with
+    | some (.frozen _) => true
+    | _ => false
 
 /-- is this op a mutation performed by the user (everything else is an API call) -/
 def Op.isUserWrite : Op → Bool
@@ -399,6 +420,15 @@ def step (w : World) (op : Op) : Except Err World :=
       | none => .error .dangling
     | some (.leaf _) => .error .typeError
     | none => .error .badHandle
+  | .unflatten ks =>
+    -- `cls({k: v for k, v in zip(keys, values)}, __unsafe_skip_copy__=True)`: the children are stored as they
+    -- are, so a FrozenDict child stays a FrozenDict *object* inside `_dict`
+    match resolveKs rs ks with
+    | none => .error .badHandle
+    | some kvs =>
+      if kvs.all (fun p => childOk h p.2) && decide ((kvs.map (·.1)).Nodup) then
+        .ok ⟨h ++ [.dict true kvs, .frozen h.length], rs ++ [.ref (h.length + 1)]⟩
+      else .error .badHandle
   | .treeMap x =>
     match rs[x]? with
     | some v =>
